@@ -269,13 +269,25 @@ def shift(ctx, res):
         # map level: every bucket visited, same index passed through
         try:
             m = shape.find_inst(P, r"^json_syntax::object::index_map::IndexMap::%s$" % name)
-            cs = [(bi, c, t) for bi, c, t in static.calls(P, m) if c is not None and c["name"].endswith("Indexes::" + name)]
-            its = [(bi, c, t) for bi, c, t in static.calls(P, m) if c is not None and re.search(r"RawTable::<.*>::iter$", c["name"])]
+            # (the call and the table iteration may sit in the function itself, in a closure it builds or in a private helper of
+            # the crate it goes through)
+            scope = [P.inst[i] for i in P.reachable([m["id"]], stop=lambda i_: i_["crate"] != "json_syntax" or i_["name"].endswith("Indexes::" + name))
+                     if P.inst[i]["crate"] == "json_syntax" and not P.inst[i]["name"].endswith("Indexes::" + name) and P.inst[i].get("has_mir")]
+            cs = [(bi, c, t, f_) for f_ in scope for bi, c, t in static.calls(P, f_) if c is not None and c["name"].endswith("Indexes::" + name)]
+            its = [(bi, c, t) for f_ in scope for bi, c, t in static.calls(P, f_) if c is not None and re.search(r"RawTable::<.*>::iter$", c["name"])]
             ok = len(cs) == 1 and len(its) == 1
             res.ob(ok, rule, "%s/%s/map" % (rule, name), "IndexMap::%s must apply Indexes::%s to every bucket of the table (calls x%d, table iterations x%d)" % (name, name, len(cs), len(its)))
             if ok:
-                o = static.origin(m, cs[0][2]["args"][1])
-                res.ob(o[0] == "param" and o[1] == 2, rule, "%s/%s/map-arg" % (rule, name), "IndexMap::%s passes another index down (%r)" % (name, o))
+                site_fn = cs[0][3]
+                o = static.origin(site_fn, cs[0][2]["args"][1])
+                if site_fn["id"] == m["id"]:
+                    okarg = o[0] == "param" and o[1] == 2
+                else:
+                    # the call sits in a closure built by IndexMap::shift_*: the index must come from the closure's environment,
+                    # and the only integer the function can capture is its own `index` parameter
+                    cap = [l for l in range(1, m.get("arg_count", 0) + 1) if P.types[m["locals"][l]]["k"] == "int"]
+                    okarg = site_fn["name"].startswith(m["name"] + "::{closure") and o[0] == "param" and o[1] == 1 and cap == [2]
+                res.ob(okarg, rule, "%s/%s/map-arg" % (rule, name), "IndexMap::%s passes another index down (%r)" % (name, o))
         except Undecided as e:
             res.violation(rule, "%s/%s/map-missing" % (rule, name), str(e))
     res.floor(rule, "shift_cases", 20)
